@@ -9,6 +9,30 @@ VERIF = Path(__file__).resolve().parent.parent
 
 # id -> (category, technique, level text, level note, design ref, engine)
 CHECKS = {
+    "C11": (
+        "fault_enumeration",
+        'property-based testing (Hypothesis) over real multi-process scenarios with sampled kill points: scheduler process killed (KILL/TERM/INT) at generated phases and restarted; log invariants (exactly once, adoption)',
+        'A real experiment process with real job processes is killed after a generated number of task-log records (before the first launch, while a job runs, between dependent jobs, with a token held), optionally twice, and re-run until it completes; the append-only log must show every job body exactly once overall, every begun body ending in the same process, no overlap, the last run ending with the right status and the token restored.',
+        'Trusted: the append-only log (observed overlap implies real overlap); crash phases are sampled (tens to hundreds of scenarios), not exhaustive; timeouts with live job processes are reported as inconclusive.',
+        "DESIGN.md section 3, C11",
+        'real',
+    ),
+    "C16": (
+        "exploration",
+        'property-based testing (Hypothesis): generated histories of runs of one experiment (normal end, exception, process death at generated points, second process) against a set model of index and backup index',
+        "Histories of 1-5 runs of one experiment name on one workspace, driven through the scheduler engine: after a normal end the index links exactly that run's jobs and no backup remains; after aborted runs index and backup still cover the last completed plan and everything submitted since, `orphans` lists none of it, and a second process cannot get inside a held experiment.",
+        "Trusted: the engine's fake job processes; kills are os._exit at three kinds of points (inside the index move, after k submissions, before leaving).",
+        "DESIGN.md section 3, C16",
+        'engine',
+    ),
+    "C20": (
+        "exploration",
+        'property-based testing (Hypothesis): metamorphic identifier equality between replacement and deprecated class families at generated positions; generated repair histories with reachability, no-loss and idempotence invariants',
+        'Fresh class families (New, Old = subclass with its own identifier, moved or renamed) per case: identifiers of plans built with New and with deprecated Old must agree node by node; job directories written before deprecation must, after each step of a generated fix / fix+cleanup sequence (with link-present, dangling-link and conflicting-directory pre-states), be reachable under the new identifier with their data, with no regular file lost and the step idempotent.',
+        'Trusted: the expectation of the new location is the New-class build itself; success-marker visibility only asserted when the script name is unchanged.',
+        "DESIGN.md section 3, C20",
+        'blueprints',
+    ),
     "C04": (
         "exploration",
         'property-based testing (Hypothesis) with a deterministic schedule explorer around the real scheduler: generated DAGs, embeddings of upstream tasks and event delivery orders; reference dependency model checked at every launch event',
